@@ -251,7 +251,7 @@ func init() {
 	core.Register(&core.Check{
 		Prop: "C12", Level: "exploration",
 		Rule: "concurrent histories as in C05-C07 (3-16 client goroutines x 10-60 transactions on 3-6 shared keys, flush queue 0-4, memtable 1-1000 B, delay profiles at the schedule points between critical sections), one part executed under the Go race detector (smaller workloads: s2 compression is ~50x slower there), the rest without; violations = any race report (de-duplicated by the pair of first non-runtime frames), any panic, any history finding of the C05/C06/C07/C08 checkers; non-trivial = a rotation, flush or compaction happened while >=2 client calls were in flight; distinct by case parameters",
-		Gen: genC12, Run: runC12, SelfTest: histSelfTest, BatchSize: 2, GoMaxProcs: 4, Parallel: 6,
+		Gen: genC12, Run: runC12, SelfTest: histSelfTest, BatchSize: 2, GoMaxProcs: 4, Parallel: 6, CaseTimeout: 240 * time.Second,
 		RaceKinds:     map[string]bool{"conc-race": true},
 		MinNonTrivial: map[string]int{"quick": 15, "thorough": 300},
 		Assumptions:   []string{"the race detector reports only races on executed, instrumented accesses", "each transaction is used by one goroutine", "only interleavings the scheduler and the injected delays produced"},
